@@ -3,7 +3,8 @@
    Anim records: Level A RoundTripOK.  Hist records (replayed MC_Keyframe rows): the real class returns the ids and
    refusals of the model (drift) and every accepted track is retrievable under its id (Level A).                *)
 EXTENDS TraceBase, Keyframe
-CheckA(r) == CASE r.e = "Anim" -> (r.eok => (r.dok /\ RoundTripOK(r)))
+\* must_encode: every integer track spans less than 2^30 (projection by the driver): inside the codec's reach a valid animation must encode
+CheckA(r) == CASE r.e = "Anim" -> ((r.must_encode => r.eok) /\ (r.eok => (r.dok /\ RoundTripOK(r))))
                [] r.e = "Hist" -> r.retrievable
                [] OTHER -> TRUE
 CheckB(r) == r.e = "Hist" => Drift(r.rets = r.model_rets /\ r.frames = r.model_frames, "KeyframeAnimation call history")
